@@ -64,8 +64,10 @@ class Gen:
             rows = ' \\\\ '.join(' & '.join(self.inlines(depth + 2) for _ in range(2)) for _ in range(self.rng.randrange(1, 3)))
             return '\\begin{tabular}{ll}%s\\end{tabular}\n\n' % rows
         if r < 0.80:
-            env = self.rng.choice(['quote', 'center'])
-            return '\\begin{%s}%s\\end{%s}\n' % (env, self.block(depth + 1), env)
+            env = self.rng.choice(['quote', 'center', 'flushleft'])
+            # with and without a paragraph break inside
+            inner = self.block(depth + 1) if self.rng.random() < 0.5 else "%s ``%s'' --- %s" % (self.inlines(depth + 1), self.word(), self.word())
+            return '\\begin{%s}%s\\end{%s}\n' % (env, inner, env)
         if r < 0.86:
             return '\\[ %s + %s \\]\n' % (self.word('m'), self.word('m'))
         if r < 0.92:
